@@ -4854,6 +4854,496 @@ def rawdoc_features(case):
 # ---------------------------------------------------------------------------
 # confirmation of witnesses in a fresh interpreter (what --replay does)
 
+# ---------------------------------------------------------------------------
+# round 11: LONG texts + "caller changes what a public helper handed out"
+#
+# kind 'handout' = {'texts': [{'unit': [lines], 'n': repeats, 'num': 0|1}, ...], 'steps': [...]}.  A text is the unit
+# repeated n times (num: the repeat number is appended to the unit's first line), framed by a first and a last line, so
+# 2 KiB .. 64 KiB texts stay small in a witness file.  Steps:
+#   ['helper', name, ti, mut]   one public helper of debian.copyright called on the LONG value of text ti; what it returns
+#                               is judged by the codec law of the statement (decode of the library's own encoding ==
+#                               the lines), then the caller changes the list it was handed (or the list it handed in);
+#   ['doc', paras, input]       a document holding the same long texts (License text, raw Copyright / Comment) is built
+#                               through the API, dumped, parsed back strict, every value compared with what the
+#                               generator wrote, re-dumped; built and re-parsed objects are KEPT;
+#   ['reparse', di, input]      the dump of kept document di is parsed once more;
+# after every helper step all kept documents are re-read.  Only the statement is judged: texts read back equal what was
+# written; decode(encode(lines)) == lines.
+HANDOUT = {'quick': 240, 'thorough': 14000}
+HO_HELPERS = ('parse_lines', 'parse_lines', 'parse_lines', 'parse', 'format_lines', 'format', 'lic_from_str',
+              'lic_to_str', 'lic_roundtrip')
+HO_MUTS = ('none', 'del0', 'clear', 'append', 'upper', 'reverse', 'pop', 'setitem', 'insert', 'slice', 'sort', 'extend')
+HO_SIZES = (('short', 200, 1900), ('2k', 2048, 4096), ('2k', 2048, 4096), ('4k', 4096, 16384), ('4k', 4096, 16384),
+            ('16k', 16384, 65536))
+HO_INDENTS = ['', '', '', ' ', '  ', '    ', '        ', '\t', ' \t']
+HO_SYNS = ['GPL-2+', 'MIT', 'Apache-2.0 or GPL-2', 'Expat', 'GPL-2+ with OpenSSL exception', 'X', 'CC-BY-SA-4.0']
+HO_TAILS = ['', '', '', ' éü', ' — 中文', ' (c)', ' <a@b.example>', ' 1.', ' ..', ' -- x']
+
+
+def ho_lines(t):
+    unit, n, num = t['unit'], t['n'], t.get('num')
+    out = ['Begin of text']
+    for k in range(n):
+        for j, l in enumerate(unit):
+            out.append(l + (' %d' % k if (num and j == 0) else ''))
+    out.append('end of text.')
+    return out
+
+
+def ho_encode(lines):
+    """The module's own (trivial) model of the ' .' encoding, valid inside the stated domain."""
+    return '\n'.join([lines[0]] + [' ' + (l if l != '' else '.') for l in lines[1:]])
+
+
+def ho_size_class(n):
+    return 'short' if n < 2048 else '2k' if n < 4096 else '4k' if n < 16384 else '16k' if n < 65536 else '64k+'
+
+
+def gen_ho_text(r, size=None):
+    _cl, lo, hi = size or r.choice(HO_SIZES)
+    unit = []
+    for _ in range(r.randint(3, 12)):
+        if unit and unit[-1] != '' and r.random() < 0.2:
+            unit.append('')
+            continue
+        unit.append(r.choice(HO_INDENTS) + ' '.join(r.choice(WORDS) for _ in range(r.randint(1, 12))).strip()
+                    + r.choice(HO_TAILS))
+    if unit[0] == '' or not unit[0].strip():
+        unit[0] = 'x'
+    num = 1 if r.random() < 0.6 else 0
+    per = sum(len(l) + 2 for l in unit) + (4 if num else 0)
+    target = r.randint(lo, hi)
+    return {'unit': unit, 'n': max(1, -(-target // per)), 'num': num}
+
+
+def gen_handout(r, tier='quick'):
+    nt = r.choice((1, 2, 2, 3))
+    texts = [gen_ho_text(r) for _ in range(nt)]
+    if all(len(ho_encode(ho_lines(t))) < 2200 for t in texts):
+        texts[0] = gen_ho_text(r, r.choice(HO_SIZES[1:]))
+    steps = []
+    ndocs = 0
+
+    def doc():
+        paras = []
+        for _ in range(r.randint(1, 4)):
+            ti = r.randrange(nt)
+            if r.random() < 0.55:
+                paras.append(['files', [r.choice(PATTERN_ATOMS[:6]) for _ in range(r.randint(1, 3))],
+                              r.randrange(nt) if r.random() < 0.4 else None, r.choice(HO_SYNS), ti,
+                              r.randrange(nt) if r.random() < 0.25 else None])
+            else:
+                paras.append(['license', r.choice(HO_SYNS), ti, r.randrange(nt) if r.random() < 0.3 else None])
+        return ['doc', paras, r.choice(ALL_INPUTS)]
+
+    def helper(mut=None):
+        name = r.choice(HO_HELPERS)
+        return ['helper', name, r.randrange(nt), mut if mut is not None else r.choice(HO_MUTS)]
+
+    shape = r.choice(('helper-first', 'doc-first', 'mixed', 'mixed'))
+    if shape == 'doc-first':
+        steps.append(doc())
+        ndocs += 1
+    for _ in range(r.randint(1, 3)):
+        steps.append(helper())
+    if shape != 'helper-first' and r.random() < 0.5:
+        steps.append(['helper', 'parse_lines', r.randrange(nt), r.choice(HO_MUTS[1:])])
+    for _ in range(r.randint(1, 2)):
+        steps.append(doc())
+        ndocs += 1
+        if r.random() < 0.6:
+            steps.append(helper())
+        if r.random() < 0.3:
+            steps.append(['reparse', r.randrange(ndocs), r.choice(ALL_INPUTS)])
+    if r.random() < 0.5:
+        steps.append(['helper', r.choice(('parse_lines', 'lic_from_str', 'parse', 'lic_roundtrip')), r.randrange(nt), 'none'])
+    return {'kind': 'handout', 'texts': texts, 'steps': steps}
+
+
+def handout_in_domain(case):
+    try:
+        texts = case['texts']
+        if not isinstance(texts, list) or not texts:
+            return False
+        for t in texts:
+            if not isinstance(t['n'], int) or not 1 <= t['n'] <= 200000 or not isinstance(t['unit'], list) or not t['unit']:
+                return False
+            if not all(isinstance(l, str) for l in t['unit']):
+                return False
+            lines = ho_lines(t)
+            if sum(len(l) + 2 for l in lines) > 400000:
+                return False
+            if not codec_domain(lines) or not text_ok('\n'.join(lines)):
+                return False
+            if any(l != l.rstrip() for l in lines) or not raw_ok(ho_encode(lines)):
+                return False
+        nt = len(texts)
+        ndocs = 0
+        for s in case['steps']:
+            if s[0] == 'helper':
+                if s[1] not in HO_HELPERS or s[3] not in HO_MUTS or not 0 <= s[2] < nt:
+                    return False
+            elif s[0] == 'doc':
+                if s[2] not in ALL_INPUTS or not s[1]:
+                    return False
+                for p in s[1]:
+                    if p[0] == 'files':
+                        _k, pats, tc, syn, ti, tm = p
+                        if not patterns_ok(pats):
+                            return False
+                    elif p[0] == 'license':
+                        _k, syn, ti, tm = p
+                        tc = None
+                    else:
+                        return False
+                    if not single_ok(syn) or not 0 <= ti < nt:
+                        return False
+                    if any(x is not None and not 0 <= x < nt for x in (tc, tm)):
+                        return False
+                ndocs += 1
+            elif s[0] == 'reparse':
+                if not 0 <= s[1] < ndocs or s[2] not in ALL_INPUTS:
+                    return False
+            else:
+                return False
+        return True
+    except Exception:
+        return False
+
+
+def _ho_mutate(L, mut):
+    if mut == 'del0':
+        del L[0]
+    elif mut == 'clear':
+        del L[:]
+    elif mut == 'append':
+        L.append('appended by the caller')
+    elif mut == 'upper':
+        L[:] = [l.upper() + '!' for l in L]
+    elif mut == 'reverse':
+        L.reverse()
+        L.append('x')
+    elif mut == 'pop':
+        L.pop()
+    elif mut == 'setitem':
+        L[len(L) // 2] = 'changed by the caller'
+    elif mut == 'insert':
+        L.insert(1, 'inserted by the caller')
+    elif mut == 'slice':
+        L[1:-1] = ['only line left']
+    elif mut == 'sort':
+        L.sort()
+        L.append('')
+    elif mut == 'extend':
+        L.extend(['', 'two more', 'lines'])
+
+
+def _ho_diff(exp, got):
+    if not isinstance(got, (list, tuple)):
+        return 'got %s' % ascii(got)[:200]
+    for i, (a, b) in enumerate(zip(exp, got)):
+        if a != b:
+            return 'line %d of %d is %s, expected %s (result has %d lines)' % (i, len(exp), ascii(b)[:120], ascii(a)[:120], len(got))
+    return 'result has %d lines, expected %d; first %s, last %s' % (
+        len(got), len(exp), ascii(got[0])[:80] if got else None, ascii(got[-1])[:80] if got else None)
+
+
+def check_handout(case, stats=None):
+    """[(key, msg)]"""
+    from debian import copyright
+    try:
+        return _check_handout(case, copyright, stats if stats is not None else {})
+    finally:
+        _close_scratch()
+
+
+def _ho_read_doc(doc, expected, where, sfx, out, stats):
+    """Every paragraph of `doc` against the generator's values."""
+    try:
+        paras = list(doc.all_paragraphs())[1:]
+    except Exception as e:
+        out.append(('long-text-document/%s/all_paragraphs-raises/%s%s' % (where, type(e).__name__, sfx), repr(e)[:300]))
+        return
+    if len(paras) != len(expected):
+        out.append(('long-text-document/%s/paragraph-count%s' % (where, sfx),
+                    '%d paragraphs, %d were written' % (len(paras), len(expected))))
+        return
+    for i, (p, (kind, vals)) in enumerate(zip(paras, expected)):
+        got_kind = 'files' if type(p).__name__ == 'FilesParagraph' else 'license' if type(p).__name__ == 'LicenseParagraph' else type(p).__name__
+        if got_kind != kind:
+            out.append(('long-text-document/%s/paragraph-kind%s' % (where, sfx), 'paragraph %d is %s, written %s' % (i, got_kind, kind)))
+            continue
+        for attr, exp in vals:
+            stats['values'] = stats.get('values', 0) + 1
+            try:
+                got = getattr(p, attr)
+            except Exception as e:
+                out.append(('long-text-document/%s/%s-paragraph/%s-raises/%s%s' % (where, kind, attr, type(e).__name__, sfx),
+                            'paragraph %d: reading .%s raises %r' % (i, attr, e)))
+                continue
+            if attr == 'license':
+                ok = got is not None and got.synopsis == exp[0] and got.text == exp[1]
+                detail = '' if ok else ('synopsis %s / %s; ' % (ascii(getattr(got, 'synopsis', None)), ascii(exp[0]))
+                                        + _ho_diff(exp[1].split('\n'), (getattr(got, 'text', None) or '').split('\n')))
+            elif attr == 'files':
+                ok = list(got) == list(exp)
+                detail = '' if ok else 'got %s expected %s' % (ascii(got), ascii(exp))
+            else:
+                ok = got == exp
+                detail = '' if ok else _ho_diff((exp or '').split('\n'), (got or '').split('\n') if isinstance(got, str) else got)
+            if not ok:
+                out.append(('long-text-document/%s/%s-paragraph/%s-differs-from-what-was-written%s' % (where, kind, attr, sfx),
+                            'paragraph %d (%s), .%s of %d characters: %s' % (
+                                i, kind, attr, len(exp[1]) if attr == 'license' else len(exp or ''), detail)))
+
+
+def _check_handout(case, copyright, stats):
+    out = []
+    texts = [ho_lines(t) for t in case['texts']]
+    encs = [ho_encode(L) for L in texts]
+    kept = []               # [built doc, parsed doc, expected, dump text]
+    handed = {}             # (helper, ti) -> number of calls so far
+    mutated = [False]
+    used = set()
+
+    def sfx():
+        return '/after-caller-changed-a-list-from-a-public-helper' if mutated[0] else ''
+
+    def judge_lines(name, ti, got, syn=None):
+        exp = ([syn] if syn is not None else []) + texts[ti]
+        stats['helper'] = stats.get('helper', 0) + 1
+        nth = handed.get((name, ti), 0)
+        handed[(name, ti)] = nth + 1
+        if isinstance(got, list) and got == exp:
+            return True
+        out.append(('public-helper/%s/decoded-lines-differ-from-the-encoded-lines/%s%s' % (
+            name, 'repeated-call' if nth else 'first-call', sfx()),
+            'text %d (%d lines, %d characters encoded): %s' % (ti, len(exp), len(encs[ti]), _ho_diff(exp, got))))
+        return False
+
+    for si, step in enumerate(case['steps']):
+        if step[0] == 'helper':
+            _s, name, ti, mut = step
+            lines = texts[ti]
+            used.add(ti)
+            stats.setdefault('helpers', []).append((name, mut, ho_size_class(len(encs[ti]))))
+            try:
+                arg = list(lines)
+                enc = copyright.format_multiline_lines(arg)
+                if enc != encs[ti]:
+                    stats['enc-differs-from-model'] = stats.get('enc-differs-from-model', 0) + 1
+                enc = ''.join([enc[:7], enc[7:]])             # equal, never the identical object
+                res = None
+                if name == 'parse_lines':
+                    res = copyright.parse_multiline_as_lines(enc)
+                    judge_lines(name, ti, res)
+                elif name == 'parse':
+                    got = copyright.parse_multiline(enc)
+                    judge_lines(name, ti, got.split('\n') if isinstance(got, str) else got)
+                elif name == 'format_lines':
+                    res = arg                                      # the caller's own list: changed AFTER the call
+                    arg2 = list(lines) if si % 2 else tuple(lines)
+                    enc2 = copyright.format_multiline_lines(arg2)
+                    judge_lines(name, ti, copyright.parse_multiline_as_lines(enc2))
+                elif name == 'format':
+                    enc2 = copyright.format_multiline('\n'.join(lines))
+                    got = copyright.parse_multiline(enc2)
+                    judge_lines(name, ti, got.split('\n') if isinstance(got, str) else got)
+                elif name == 'lic_from_str':
+                    syn = HO_SYNS[si % len(HO_SYNS)]
+                    raw = copyright.License(syn, '\n'.join(lines)).to_str()
+                    lic = copyright.License.from_str(''.join([raw[:3], raw[3:]]))
+                    judge_lines(name, ti, [lic.synopsis] + lic.text.split('\n'), syn)
+                    res = copyright.parse_multiline_as_lines(raw)  # the same raw value through the list helper
+                elif name == 'lic_to_str':
+                    syn = HO_SYNS[si % len(HO_SYNS)]
+                    raw = copyright.License(syn, '\n'.join(lines)).to_str()
+                    res = copyright.parse_multiline_as_lines(raw)
+                    judge_lines(name, ti, res, syn)
+                elif name == 'lic_roundtrip':
+                    syn = HO_SYNS[si % len(HO_SYNS)]
+                    lic = copyright.License(syn, '\n'.join(lines))
+                    back = copyright.License.from_str(lic.to_str())
+                    judge_lines(name, ti, [back.synopsis] + back.text.split('\n'), syn)
+                    res = copyright.parse_multiline_as_lines(back.to_str())
+                if isinstance(res, list) and mut != 'none' and res:
+                    _ho_mutate(res, mut)
+                    mutated[0] = True
+                    stats['mutations'] = stats.get('mutations', 0) + 1
+            except Exception as e:
+                out.append(('public-helper/%s/raises-inside-the-stated-domain/%s%s' % (name, type(e).__name__, sfx()),
+                            'text %d (%d characters encoded): %r' % (ti, len(encs[ti]), e)))
+            # every kept object still shows the generator's values
+            for di, (built, parsed, expected, _text) in enumerate(kept):
+                stats['kept'] = stats.get('kept', 0) + 1
+                before = len(out)
+                _ho_read_doc(built, expected, 'kept-built-document-re-read', sfx(), out, stats)
+                if parsed is not None:
+                    _ho_read_doc(parsed, expected, 'kept-re-parsed-document-re-read', sfx(), out, stats)
+                if len(out) > before:
+                    break
+        elif step[0] == 'doc':
+            _s, paras, mode = step
+            expected = []
+            objs = []
+            try:
+                c = copyright.Copyright()
+                for p in paras:
+                    if p[0] == 'files':
+                        _k, pats, tc, syn, ti, tm = p
+                        cop = encs[tc] if tc is not None else 'Copyright 2001 A. N. Other'
+                        lic = copyright.License(syn, '\n'.join(texts[ti]))
+                        fp = copyright.FilesParagraph.create(list(pats), cop, lic)
+                        vals = [('files', list(pats)), ('copyright', cop), ('license', (syn, '\n'.join(texts[ti])))]
+                        if tm is not None:
+                            fp.comment = encs[tm]
+                            vals.append(('comment', encs[tm]))
+                        c.add_files_paragraph(fp)
+                        objs.append(fp)
+                        expected.append(('files', vals))
+                        used.update(x for x in (tc, ti, tm) if x is not None)
+                    else:
+                        _k, syn, ti, tm = p
+                        lp = copyright.LicenseParagraph.create(copyright.License(syn, '\n'.join(texts[ti])))
+                        vals = [('license', (syn, '\n'.join(texts[ti])))]
+                        if tm is not None:
+                            lp.comment = encs[tm]
+                            vals.append(('comment', encs[tm]))
+                        c.add_license_paragraph(lp)
+                        objs.append(lp)
+                        expected.append(('license', vals))
+                        used.update(x for x in (ti, tm) if x is not None)
+                # the paragraph sequence is the one the built document reports (by identity of the objects added)
+                byid = dict((id(o), e) for o, e in zip(objs, expected))
+                rep = [byid.get(id(q)) for q in list(c.all_paragraphs())[1:]]
+                if len(rep) == len(expected) and all(e is not None for e in rep):
+                    expected = rep
+                text = c.dump()
+            except Exception as e:
+                out.append(('long-text-document/build-or-dump-raises/%s%s' % (type(e).__name__, sfx()), repr(e)[:300]))
+                continue
+            stats['docs'] = stats.get('docs', 0) + 1
+            stats.setdefault('doc-sizes', []).append(ho_size_class(len(text)))
+            before = len(out)
+            _ho_read_doc(c, expected, 'built', sfx(), out, stats)
+            parsed = None
+            try:
+                parsed = copyright.Copyright(_feed(text, mode), strict=True)
+            except Exception as e:
+                out.append(('long-text-document/strict-re-parse-raises/%s%s' % (type(e).__name__, sfx()), repr(e)[:300]))
+            if parsed is not None:
+                _ho_read_doc(parsed, expected, 're-parsed', sfx(), out, stats)
+                try:
+                    text2 = parsed.dump()
+                    if text2 != text:
+                        out.append(('long-text-document/re-dump-differs-from-dump' + sfx(),
+                                    'dump of %d characters, re-dump of %d' % (len(text), len(text2))))
+                except Exception as e:
+                    out.append(('long-text-document/re-dump-raises/%s%s' % (type(e).__name__, sfx()), repr(e)[:300]))
+            if len(out) == before:
+                kept.append([c, parsed, expected, text])
+            else:
+                kept.append([c, None, expected, text])
+        else:
+            _s, di, mode = step
+            if di >= len(kept):
+                continue
+            _b, _p, expected, text = kept[di]
+            stats['reparses'] = stats.get('reparses', 0) + 1
+            try:
+                again = copyright.Copyright(_feed(text, mode), strict=True)
+            except Exception as e:
+                out.append(('long-text-document/strict-re-parse-raises/%s%s' % (type(e).__name__, sfx()), repr(e)[:300]))
+                continue
+            _ho_read_doc(again, expected, 'parsed-once-more', sfx(), out, stats)
+            try:
+                if again.dump() != text:
+                    out.append(('long-text-document/re-dump-differs-from-dump' + sfx(), 'second parse of the same dump'))
+            except Exception as e:
+                out.append(('long-text-document/re-dump-raises/%s%s' % (type(e).__name__, sfx()), repr(e)[:300]))
+    stats['sizes'] = [ho_size_class(len(encs[ti])) for ti in sorted(used)]
+    return out
+
+
+def shrink_handout(case, key, budget=60):
+    def fails(c):
+        return handout_in_domain(c) and any(k == key for k, _m in check_handout(c))
+    cur = case
+    changed = True
+    while changed and budget > 0:
+        changed = False
+        for i in range(len(cur['steps']) - 1, -1, -1):
+            if budget <= 0:
+                break
+            steps = cur['steps'][:i] + cur['steps'][i + 1:]
+            if cur['steps'][i][0] == 'doc':
+                # later 'reparse' steps address documents by number
+                nd = sum(1 for s in cur['steps'][:i] if s[0] == 'doc')
+                steps = [s for s in steps if not (s[0] == 'reparse' and s[1] >= nd)]
+            cand = dict(cur, steps=steps)
+            budget -= 1
+            if steps and fails(cand):
+                cur = cand
+                changed = True
+    for ti in range(len(cur['texts'])):
+        while budget > 0 and cur['texts'][ti]['n'] > 1:
+            budget -= 1
+            texts = [dict(t) for t in cur['texts']]
+            texts[ti]['n'] = texts[ti]['n'] * 3 // 4
+            cand = dict(cur, texts=texts)
+            if fails(cand):
+                cur = cand
+            else:
+                break
+    return cur
+
+
+def run_handout(ctx, case):
+    if not handout_in_domain(case):
+        ctx.count('handout:outside-domain')
+        return
+    stats = {}
+    found = check_handout(case, stats)
+    ctx.mon('M.handout')
+    ctx.mon('M.handout.helper', stats.get('helper', 0))
+    ctx.mon('M.handout.doc', stats.get('docs', 0))
+    ctx.mon('M.handout.value', stats.get('values', 0))
+    ctx.mon('M.handout.kept', stats.get('kept', 0))
+    ctx.count('handout:mutations', stats.get('mutations', 0))
+    ctx.count('handout:reparses', stats.get('reparses', 0))
+    if stats.get('enc-differs-from-model'):
+        ctx.count('handout:library-encoding-differs-from-own-model', stats['enc-differs-from-model'])
+    for name, mut, cl in stats.get('helpers', ()):
+        ctx.count('handout:helper:%s' % name)
+        ctx.count('handout:text-size:%s' % cl)
+        if mut != 'none':
+            ctx.count('handout:mut:%s' % mut)
+    for cl in stats.get('doc-sizes', ()):
+        ctx.count('handout:doc-size:%s' % cl)
+    for cl in stats.get('sizes', ()):
+        ctx.count('handout:used-text:%s' % cl)
+    if stats.get('mutations'):
+        ctx.nontrivial()
+    seen = set()
+    for key, msg in found:
+        if key in seen:
+            continue
+        seen.add(key)
+        small = case
+        if ctx.viol_count[key] < 3 and not ctx.replay:
+            try:
+                small = shrink_handout(case, key)
+                again = [m for k, m in check_handout(small) if k == key]
+                if again:
+                    msg = again[0]
+                else:
+                    small = case
+            except Exception:
+                small = case
+            key, msg, small = confirm(ctx, key, msg, [small] + ([case] if small is not case else []))
+        ctx.violation(key, msg, small)
+
+
 def standalone(case):
     """Entry point of the confirmation subprocess: the mechanism keys one case
     shows when it is the only thing the interpreter executes."""
@@ -4867,6 +5357,8 @@ def standalone(case):
         return [k for k, _m, _i in check_multi(case)] if multi_in_domain(case) else []
     if kind == 'lists':
         return [k for k, _m, _i in check_lists(case)] if lists_in_domain(case) else []
+    if kind == 'handout':
+        return [k for k, _m in check_handout(case)] if handout_in_domain(case) else []
     return []
 
 
@@ -5044,6 +5536,11 @@ def cases(ctx):
     n = ctx.size(RAWDOCS['quick'], RAWDOCS['thorough'])
     for i in range(n):
         yield gen_rawdoc(ctx.rng('rawdoc', i))
+    # 1i. long texts (2 KiB .. 64 KiB) through the public helpers and through documents, with the caller changing
+    #     the lists the helpers handed out in between (own stream)
+    n = ctx.size(HANDOUT['quick'], HANDOUT['thorough'])
+    for i in range(n):
+        yield gen_handout(ctx.rng('handout', i), ctx.tier if hasattr(ctx, 'tier') else 'quick')
     # 1c. several documents in one case
     n = ctx.size(MULTI['quick'], MULTI['thorough'])
     for i in range(n):
@@ -5431,6 +5928,9 @@ def run_case(ctx, case):
         return
     if kind == 'rawdoc':
         run_rawdoc(ctx, case)
+        return
+    if kind == 'handout':
+        run_handout(ctx, case)
         return
     if kind != 'doc':
         ctx.count('unknown-case-kind')
